@@ -1,3 +1,29 @@
+/-
+C02 with 0-RTT: `quic_connection_exact_0rtt` — `C02Capstone3.quic_connection_exact_interleaved` with 0-RTT packets anywhere in
+the mixed part of the history (own datagrams or coalesced behind Initial packets; `C02Capstone3.DgX`).
+
+THE CONDITION (`XDgOkE.suite`), in terms of what the tool does: the Early decryptor and the early header-protection key are
+(re)derived by every `set_tls_decryptors` call, with the suite of THAT call; `ecsFold` follows the calls along the CRYPTO
+inputs of the history (a call happens when an input leaves `new_data` set: ClientHello complete → the FIRST OFFERED suite;
+ServerHello / EncryptedExtensions → the selected suite; a call with a suite the tool does not know derives nothing). A 0-RTT
+packet is decrypted iff the suite of the last call is the suite `selR` the client protects 0-RTT with and the key log has
+CLIENT_EARLY_TRAFFIC_SECRET. (`C02Capstone3.ZrPkOk.suite` states this with the parser's `ciphersuite` field of the moment;
+the two agree whenever the parser changes `ciphersuite` only together with `new_data` — true of `Quic/TlsMsgs` on conformant
+hellos, not proved in general, so `C02Capstone3.quic_connection_exact_0rtt_statement` stays a `def`; THIS file's theorem is
+the proved form.)
+
+Proof: the Early keys are carried next to the handshake invariant `HsSt` of the capstone — `EInv` —, one layer at a time:
+`handleCrypto_early` (from `afterTls_early`, `afterTls_unknown`, `afterTls_quiet`), `handleFrames_early`, `hs_packet_early`,
+`hs_turn_x` (`hs_turn` with the post-state named), `hs_loop_early`; `zr_loop` / `hsSt_after_zr` (a 0-RTT packet advances the
+client's application packet-number space and may issue connection IDs, nothing else); `tail_loop_early`; `x_dg_step` (one
+datagram: long-header packets, 0-RTT packets, more long-header packets, the closing 1-RTT packet — the output buffer is
+write-only, so the later parts are analysed on the state without it); `x_feed_step`, `x_feed_rest`; the builder's view
+`inDgX` (`inDgX_data`: the datagram's exported data = the 0-RTT packets' STREAM data, then the 1-RTT packet's).
+NOT covered (lost by the tool, open finding `early-data-lost`): 0-RTT packets reached before the ClientHello is complete or
+while the last call used another suite (`C02Capstone3.ExZr`, `C02Capstone4Ex.zero_rtt_not_first_offered_lost`); the stronger
+form "such packets are simply missing and everything else is exact" is not proved (it needs the dissector on a packet
+unprotected with a wrong key). Instances: `Props/C02Capstone4Ex.lean`. Core Lean only.
+-/
 import TLX.Props.C02Capstone3
 set_option linter.unusedSimpArgs false
 set_option linter.unusedVariables false
